@@ -18,6 +18,9 @@ def register(prop, J):
                extra_pkgs=["dyn", "gendrv"], timeout=(900, 3000)),
              J("hostile-http-v2", "v2", "resprops", "^TestC04", checks=(8000, 400000), shards=(4, 16), prepare="prepare_resources",
                extra_pkgs=["dyn", "gendrv"], timeout=(1200, 3000)),
+             # (appended after the v2 jobs: the position of a job determines its derived seeds)
+             J("hostile-v1", "v1", "codecprops", "^TestC04", checks=(12000, 500000), shards=(4, 16), prepare="prepare_codec",
+               extra_pkgs=["dyn", "gendrv"], timeout=(900, 3000)),
          ],
          level_text="every decoder call runs under panic capture and a watchdog (30 s without progress = hang): the oracle is 'returns a "
                     "value or an error'; complete enumeration of short delimiter strings plus generated mutations of valid documents",
